@@ -23,6 +23,11 @@ struct Hooks
     double next_spatial_param = 1.0;
     int next_spatial_kind = 0;
     int next_id = 1;
+    // injected cancellation from inside a map: the abort_map_call-th map call (counted from arming) throws
+    bool abort_map_armed = false;
+    long abort_map_call = 0;
+    long abort_map_seen = 0;
+    bool abort_map_fired = false;
 };
 inline Hooks &hooks()
 {
@@ -33,7 +38,18 @@ inline Hooks &hooks()
 inline void map_yield(const char *tag)
 {
     Hooks &h = hooks();
-    { NoRace g; ++h.map_calls; }
+    bool fire = false;
+    {
+        NoRace g;
+        ++h.map_calls;
+        if (h.abort_map_armed && h.abort_map_seen++ == h.abort_map_call)
+        {
+            fire = true;
+            h.abort_map_armed = false;
+            h.abort_map_fired = true;
+        }
+    }
+    if (fire) throw InjectedAbort();
     if (h.yield_in_maps) yield_point(tag);
 }
 inline void cost_yield(const char *tag)
